@@ -2,6 +2,7 @@ import MgpuModel.C04
 import MgpuProofs.C04
 import MgpuProofs.C04Bits
 import MgpuProofs.C04Enc
+import MgpuProofs.C04Enc8
 import MgpuProofs.C04Total
 /-! # C04 — property theorems (decoding is total, deterministic, inverse to encoding)
 
@@ -113,17 +114,20 @@ theorem rows_reachable_all_fillings (r : Row) (hr : r ∈ allRows) :
 example : matchFormat 0x807fffff = formatOf FT_SOP2 ∧ matchFormat 0x80000000 = formatOf FT_SOP2 ∧
     matchFormat 0xD119ABCD = formatOf FT_VOP3b := by decide
 
-/-- **Encode/decode round trip** for SOP2, SOPK, SOP1, SOPC, SOPP, VOP2, VOP1, VOPC and SMEM
-    (field packing written out from the ISA manual in `encWord`, independent of the regenerated
-    format table): every well-formed description — opcode in the decode table, operand codes in
-    range and denoting an operand, a 32-bit literal present exactly when a source field says 255
-    (or the opcode is a VOP2 "K" form) — encodes to bytes that decode, WHATEVER bytes follow and on
-    both architectures, to exactly the instruction the description denotes on that architecture
-    (`instOf c`: name and opcode of the row the architecture's table returns — for a CDNA3
-    disassembler `Gen.cdna3Rows` first, e.g. VOP1 0x38 = `v_mov_b64` with 64-bit operands —, each operand at its role with its register count, the literal value,
-    immediates and flags, size 4 or 8). So the decoder's field extraction is the inverse of the
-    ISA's packing, no format shadows another on any well-formed word, and the literal is found. -/
-theorem decode_encode (c : Bool) (d : Desc) (hwf : wellFormed d = true) (t : List Nat) :
+/-- **Encode/decode round trip** for EVERY format the decoder handles — SOP2, SOPK, SOP1, SOPC, SOPP, VOP2 (incl. the
+    madmk/madak/fmamk/fmaak K forms and the SDWA second dword), VOP1, VOPC, SMEM, VOP3a (incl. the VOPC/VOP1 opcodes
+    in VOP3 encoding and the packed-math OP_SEL rows 944–946), VOP3b (the opcodes of `isVOP3bOpcode`), DS and
+    FLAT/GLOBAL/SCRATCH (SEG, SADDR, signed 13-bit offset) — with the field packing written out from the ISA manual
+    in `encWord` / `hiWord` / `sdwaWord`, independent of the regenerated format table: every well-formed description
+    (`wellFormed`: opcode in the decode table, every field within its width, every operand code denoting an operand,
+    modifiers in range, a 32-bit literal present exactly when a source field says 255 or the opcode is a VOP2 "K" form)
+    outside the two deviating classes of `deviates` encodes to bytes that decode, WHATEVER bytes follow and on both
+    architectures, to exactly the instruction the description denotes on that architecture (`instOf c`: name and opcode
+    of the row the architecture's table returns — for a CDNA3 disassembler `Gen.cdna3Rows` first —, each operand at its
+    role with its register kind, index, code and count, the literal value, immediates, offsets, modifiers and flags,
+    size = number of bytes encoded (`instOf_size`)). So the decoder's field extraction is the inverse of the ISA's
+    packing, no format shadows another on any well-formed word, and the literal / second dword is found. -/
+theorem decode_encode (c : Bool) (d : Desc) (hwf : wellFormed d = true) (hdev : deviates d = false) (t : List Nat) :
     decode c (encode d ++ t) = .ok (instOf c d) := by
   unfold wellFormed at hwf
   simp only [Bool.and_eq_true, beq_iff_eq] at hwf
@@ -134,7 +138,7 @@ theorem decode_encode (c : Bool) (d : Desc) (hwf : wellFormed d = true) (t : Lis
     obtain ⟨hr, hrf, hro⟩ := lookUp_some hrow
     -- the row this architecture's table returns for the same (format, opcode)
     obtain ⟨row', hrow', hrf', hro'⟩ := lookUpArch_of_lookUp (c := c) hrow
-    have hinst : instOf c d = instOfRow d row' := by simp [instOf, hrow']
+    have hinst : instOf c d = instOfRowArch c d row' := by simp [instOf, hrow']
     rw [hinst]
     have hfill := List.all_eq_true.mp rows_fill row hr
     cases hf : formatOf row.ft with
@@ -155,52 +159,93 @@ theorem decode_encode (c : Bool) (d : Desc) (hwf : wellFormed d = true) (t : Lis
         refine ⟨(hall0 w hw henc (by rw [hop, hro', hro])).1, ?_⟩
         rw [hop, hro', hfft]
         exact hrow'
-      rcases fieldsOK_ft hfo with h | h | h | h | h | h | h | h | h
+      have hnf : ∀ {ft}, d.ft = ft → ft ≠ FT_FLAT → instOfRowArch c d row' = instOfRow d row' := by
+        intro ft h hne
+        unfold instOfRowArch
+        rw [if_neg]
+        simp only [beq_iff_eq]
+        rw [h]
+        exact hne
+      rcases fieldsOK_ft hfo with h | h | h | h | h | h | h | h | h | h | h | h | h
       · obtain ⟨a1, a2, a3, a4, a5⟩ := fmt_sop2 f hfm (hfft.trans h)
         rw [a2, a3] at hfit
+        rw [hnf h (by decide)]
         refine roundtrip_of c d row' f hfm _ hall hsec ?_ t
         rw [a2, a3, a4, a5, hro']
         exact enc_sop2 c d row' f h (hfft.trans h) a1 hro' (by simpa using hfit) hfo hl
       · obtain ⟨a1, a2, a3, a4, a5⟩ := fmt_sopk f hfm (hfft.trans h)
         rw [a2, a3] at hfit
+        rw [hnf h (by decide)]
         refine roundtrip_of c d row' f hfm _ hall hsec ?_ t
         rw [a2, a3, a4, a5, hro']
-        exact enc_sopk c d row' f h (hfft.trans h) a1 hro' (by simpa using hfit) hfo hl
+        exact enc_sopk c d row' f h (hfft.trans h) a1 hro' (by simpa using hfit) hfo hl hdev
       · obtain ⟨a1, a2, a3, a4, a5⟩ := fmt_sop1 f hfm (hfft.trans h)
         rw [a2, a3] at hfit
+        rw [hnf h (by decide)]
         refine roundtrip_of c d row' f hfm _ hall hsec ?_ t
         rw [a2, a3, a4, a5, hro']
         exact enc_sop1 c d row' f h (hfft.trans h) a1 hro' (by simpa using hfit) hfo hl
       · obtain ⟨a1, a2, a3, a4, a5⟩ := fmt_sopc f hfm (hfft.trans h)
         rw [a2, a3] at hfit
+        rw [hnf h (by decide)]
         refine roundtrip_of c d row' f hfm _ hall hsec ?_ t
         rw [a2, a3, a4, a5, hro']
         exact enc_sopc c d row' f h (hfft.trans h) a1 hro' (by simpa using hfit) hfo hl
       · obtain ⟨a1, a2, a3, a4, a5⟩ := fmt_sopp f hfm (hfft.trans h)
         rw [a2, a3] at hfit
+        rw [hnf h (by decide)]
         refine roundtrip_of c d row' f hfm _ hall hsec ?_ t
         rw [a2, a3, a4, a5, hro']
         exact enc_sopp c d row' f h (hfft.trans h) a1 hro' (by simpa using hfit) hfo hl
       · obtain ⟨a1, a2, a3, a4, a5⟩ := fmt_vop2 f hfm (hfft.trans h)
         rw [a2, a3] at hfit
+        rw [hnf h (by decide)]
         refine roundtrip_of c d row' f hfm _ hall hsec ?_ t
         rw [a2, a3, a4, a5, hro']
-        exact enc_vop2 c d row' f h (hfft.trans h) a1 hro' (by simpa using hfit) hfo hl
+        by_cases hs : d.sdwa = 1
+        · exact enc_vop2_sdwa c d row' f h (hfft.trans h) a1 hro' (by simpa using hfit) hs hfo hdev
+        · exact enc_vop2 c d row' f h (hfft.trans h) a1 hro' (by simpa using hfit) (by simpa using hs) hfo hl
       · obtain ⟨a1, a2, a3, a4, a5⟩ := fmt_vop1 f hfm (hfft.trans h)
         rw [a2, a3] at hfit
+        rw [hnf h (by decide)]
         refine roundtrip_of c d row' f hfm _ hall hsec ?_ t
         rw [a2, a3, a4, a5, hro']
         exact enc_vop1 c d row' f h (hfft.trans h) a1 hro' (by simpa using hfit) hfo hl
       · obtain ⟨a1, a2, a3, a4, a5⟩ := fmt_vopc f hfm (hfft.trans h)
         rw [a2, a3] at hfit
+        rw [hnf h (by decide)]
         refine roundtrip_of c d row' f hfm _ hall hsec ?_ t
         rw [a2, a3, a4, a5, hro']
         exact enc_vopc c d row' f h (hfft.trans h) a1 hro' (by simpa using hfit) hfo hl
       · obtain ⟨a1, a2, a3, a4, a5⟩ := fmt_smem f hfm (hfft.trans h)
         rw [a2, a3] at hfit
+        rw [hnf h (by decide)]
         refine roundtrip_of c d row' f hfm _ hall hsec ?_ t
         rw [a2, a3, a4, a5, hro']
         exact enc_smem c d row' f h (hfft.trans h) a1 hro' (by simpa using hfit) hfo
+      · obtain ⟨a1, a2, a3, a4, a5⟩ := fmt_vop3a f hfm (hfft.trans h)
+        rw [a2, a3] at hfit
+        rw [hnf h (by decide)]
+        refine roundtrip_of c d row' f hfm _ hall hsec ?_ t
+        rw [a2, a3, a4, a5, hro']
+        exact enc_vop3a c d row' f h (hfft.trans h) a1 hro' (by simpa using hfit) hfo
+      · obtain ⟨a1, a2, a3, a4, a5⟩ := fmt_vop3b f hfm (hfft.trans h)
+        rw [a2, a3] at hfit
+        rw [hnf h (by decide)]
+        refine roundtrip_of c d row' f hfm _ hall hsec ?_ t
+        rw [a2, a3, a4, a5, hro']
+        exact enc_vop3b c d row' f h (hfft.trans h) a1 hro' (by simpa using hfit) hfo
+      · obtain ⟨a1, a2, a3, a4, a5⟩ := fmt_ds f hfm (hfft.trans h)
+        rw [a2, a3] at hfit
+        rw [hnf h (by decide)]
+        refine roundtrip_of c d row' f hfm _ hall hsec ?_ t
+        rw [a2, a3, a4, a5, hro']
+        exact enc_ds c d row' f h (hfft.trans h) a1 hro' (by simpa using hfit) hfo
+      · obtain ⟨a1, a2, a3, a4, a5⟩ := fmt_flat f hfm (hfft.trans h)
+        rw [a2, a3] at hfit
+        refine roundtrip_of c d row' f hfm _ hall hsec ?_ t
+        rw [a2, a3, a4, a5, hro']
+        exact enc_flat c d row' f h (hfft.trans h) a1 hro' (by simpa using hfit) hfo
 
 /-- non-vacuity of the architecture split: VOP1 opcode 0x38 (`7e047104`) is `v_mov_b64 v[2:3], v[4:5]`
     for a CDNA3 disassembler and `v_movrelsd_b32 v2, v4` otherwise -/
